@@ -39,6 +39,16 @@ func scan(inner []string) string {
 	tb, _ := hex.DecodeString(hx)
 	text := string(tb)
 	var forbidden []string
+	if inner[0] == "purl" { // the secret is a query parameter of the URL
+		if u := parseURLFields(inner[1]); u != nil {
+			if sec := u.Query().Get("secret"); len(sec) >= 8 {
+				if strings.Contains(text, sec) {
+					return "leak:" + hex.EncodeToString([]byte(sec))
+				}
+			}
+		}
+		return "clean"
+	}
 	secret := string(unhx(inner[1]))
 	trimmed := strings.TrimSpace(secret)
 	if len(trimmed) >= 16 {
